@@ -5,6 +5,8 @@
    suffice) | Panic (the Go code panics: index/slice out of range, failed assert). *)
 From PV Require Import Lib.Bytes Model.MkLexPrim Model.MkLexer Model.MkTokensLexer Model.MkLineSplit
   Model.VaralignSplit Spec.MkPartition Proofs.MkLexPrim Proofs.MkLexer Proofs.MkLineSplit Proofs.VaralignSplit Proofs.Varassign Proofs.VarassignFull.
+From PV Require Import Model.MatchVarassign Proofs.MatchVarassign.
+From PV Require Model.Lines.
 Open Scope N_scope.
 
 (* ---------- mklexer.go ---------- *)
@@ -215,3 +217,78 @@ Print Assumptions C10mk_varassign_value_comment_recombine.
 Theorem C10mk_varassign_fuel : forall text : str, parse_varassign text <> OutOfFuel.
 Proof. exact varassign_fuel. Qed.
 Print Assumptions C10mk_varassign_fuel.
+
+(* ------------------------------------------------------------------------------------------
+   matchVarassign on logical lines made of SEVERAL raw lines (Model/MatchVarassign.v):
+   raw0 = line.raw[0].Orig(), text = line.Text, multiline = line.IsMultiline().
+   All statements are for ALL raw0 / text, hence for every line convertToLogicalLines builds. *)
+
+(* a logical line of one raw line: literally the model the theorems above are about *)
+Theorem C10mk_varassign_ml_single : forall text : str,
+  parse_varassign_ml false text text = parse_varassign text.
+Proof. exact ml_single. Qed.
+Print Assumptions C10mk_varassign_ml_single.
+
+(* the guard as coded: an accepted multi-line assignment has "=" in its first raw line *)
+Theorem C10mk_varassign_ml_guard : forall (raw0 text : str) (a : varassign),
+  parse_varassign_ml true raw0 text = Ok (Some a) -> first_raw_has_equals raw0 = true.
+Proof. exact varassign_ml_guard. Qed.
+Print Assumptions C10mk_varassign_ml_guard.
+
+(* value, space and comment recombine to the LOGICAL text, whatever the raw lines are *)
+Theorem C10mk_varassign_ml_value_comment_recombine :
+  forall (multiline : bool) (raw0 text : str) (a : varassign),
+  parse_varassign_ml multiline raw0 text = Ok (Some a) ->
+  exists head pre sp,
+    text = (if va_commented a then [35] else []) ++ pre ++ comment_tail (va_split a) /\
+    unescape_hash pre = head ++ va_value a ++ sp /\
+    sr_main (va_split a) = head ++ va_value a /\
+    forallb is_hspace sp = true /\
+    (va_value a <> [] -> sp = sr_space_before_comment (va_split a)).
+Proof. exact varassign_ml_value_comment_recombine. Qed.
+Print Assumptions C10mk_varassign_ml_value_comment_recombine.
+
+(* the alignment prefix of an accepted assignment is a prefix of the FIRST RAW LINE, followed by
+   blanks only when the value is empty (the spaceBeforeComment moved into it) *)
+Theorem C10mk_varassign_ml_align_prefix :
+  forall (multiline : bool) (raw0 text : str) (a : varassign),
+  parse_varassign_ml multiline raw0 text = Ok (Some a) ->
+  exists al r sp, raw0 = al ++ r /\ va_value_align a = al ++ sp /\ forallb is_hspace sp = true /\
+    (va_value a <> [] -> sp = []).
+Proof. exact varassign_ml_align_prefix. Qed.
+Print Assumptions C10mk_varassign_ml_align_prefix.
+
+(* the same, over the lines of a whole file as C09's convertToLogicalLines builds them *)
+Theorem C10mk_varassign_file_lines :
+  forall (raw_text : str) (ls : list (Lines.line * res (option varassign))),
+  varassign_of_file raw_text = Ok ls ->
+  Forall (fun lr : Lines.line * res (option varassign) =>
+    forall a, snd lr = Ok (Some a) ->
+      va_law (Lines.text (fst lr)) a /\
+      (line_multiline (fst lr) = true -> first_raw_has_equals (line_raw0 (fst lr)) = true)) ls.
+Proof. exact varassign_of_file_lines. Qed.
+Print Assumptions C10mk_varassign_file_lines.
+
+(* FULL statement: a logical line whose text alone parses without panic does not make
+   matchVarassign panic either.  FALSE of the faithful model (and of the real code): the guard
+   looks for ANY "=" in the first raw line, not for the operator. *)
+Definition C10mk_varassign_ml_no_panic_full : Prop := ml_no_panic_full.
+
+Theorem C10mk_varassign_ml_no_panic_refuted : ~ C10mk_varassign_ml_no_panic_full.
+Proof. exact ml_no_panic_refuted. Qed.
+Print Assumptions C10mk_varassign_ml_no_panic_refuted.
+
+(* the witness: VAR.${PARAM:S,=,,}\ / = value *)
+Example C10mk_varassign_ml_witness :
+  varassign_of_file ml_witness_file =
+    Ok [(Lines.mk_line 1 ml_witness_text [ml_witness_raw0 ++ [10]; [61;32;118;97;108;117;101;10]], Panic)].
+Proof. exact ml_witness_lines. Qed.
+
+(* PARTIAL: without any "=" in the first raw line the line is rejected before the raw line is
+   looked at: no panic beyond those of parsing the logical text itself *)
+Theorem C10mk_varassign_ml_no_panic_partial : forall (raw0 text : str) (r : option varassign),
+  first_raw_has_equals raw0 = false ->
+  parse_varassign text = Ok r ->
+  parse_varassign_ml true raw0 text = Ok None.
+Proof. exact varassign_ml_rejected. Qed.
+Print Assumptions C10mk_varassign_ml_no_panic_partial.
